@@ -58,6 +58,29 @@ MICRO_FALSE_ALARMS = {
 }
 
 
+# seeded changes that also restructure the code the rule looks at (a new helper, most of a small function rewritten): the rule's
+# verdict is withheld by the confidence gate (sa/shapegate.py) - the check ends with exit 2 and names the rule, not with a VIOLATION
+EXPECTED_WITHHELD = {
+    "C04-r4-3": "CACHE-2: cached_fn rewritten for the most part (6 of 8 statement lines)",
+    "C05-r4-1": "CMP-1: _models_cmp_fn rewritten for the most part (6 of 8 statement lines)",
+    "C09-r6-1": "DET-3 / REGDELIV-1: the defect sits in a new helper Cli._disable_str_types",
+    "C09-r6-2": "RES-1: resolve() delegates to a new helper _is_particular_case",
+    "C10-r6-1": "INJ-3: to_typing_code delegates to a new helper _render",
+    "C12-1": "LAY-1: compose_models delegates to a new helper new_struct",
+    "C12-r4-1": "COMPOSE-1: the defect sits in a new function _structure_entry",
+    "C13-2": "RX-1: the defect sits in a new function Cli._anchor_regex",
+    "C13-r3-1": "DK-1..3: _detect_type delegates to a new helper _checked_keys",
+    "C13-r6-2": "OPTFLOW-6k: the defect sits in a new function split_list_arg",
+    "C13-r7-1": "OPT-1/4/5: merge_field_sets delegates to a new helper _empty_mapping_adds_nothing",
+    "C13-r7-2": "EQ-1: ComplexType.__eq__ delegates to a new helper _sorted_keys",
+    "C14-r3-3": "LABEL-1 / OPTFWD-1: the defect sits in a new method SqlModelCodeGenerator.convert_class_name",
+    "C17-r2-2": "ATOM-1/2 / ENC-1: Cli.run delegates to a new helper _output_parts",
+    "C17-r4-3": "EXIT-1: the defect sits in a new nested function Cli.validate.fail",
+    "C18-r7-2": "RES-1: resolve() delegates to a new helper _is_particular_case",
+    "C19-1": "INJ-4: version_string rewritten for the most part (6 of 7 statement lines)",
+}
+
+
 def _copy_repo(dst: str):
     for item in ("json_to_models", "pyproject.toml", "testing_tools", "test"):
         src = os.path.join(REPO, item)
@@ -84,7 +107,7 @@ def run_one(patch: str, props):
                                capture_output=True, text=True, env=env)
             rules = sorted({ln.strip().split(" at ")[0] for ln in p.stdout.splitlines()
                             if " at " in ln and " in " in ln and ln.startswith("  ") and not ln.startswith("   ")})
-            out[pid] = {"rc": p.returncode, "rules": rules}
+            out[pid] = {"rc": p.returncode, "rules": rules, "withheld": "verdict withheld" in p.stdout}
         return out
     finally:
         shutil.rmtree(tmp, ignore_errors=True)
@@ -146,10 +169,15 @@ def battery(only=None, jobs=16, refactorings=True):
                 target = props[0]
                 rc = r[target]["rc"]
                 detected = rc == 1
+                withheld = rc == 2 and r[target].get("withheld", False)
                 exp_miss = name in EXPECTED_MISS
-                res["seeded"][name] = {"detected": detected, "rc": rc, "rules": r[target]["rules"],
-                                       "expected": "miss (out of reach)" if exp_miss else "detect"}
-                if detected == exp_miss or rc == 2:
+                exp_withheld = name in EXPECTED_WITHHELD
+                res["seeded"][name] = {"detected": detected, "withheld": withheld, "rc": rc, "rules": r[target]["rules"],
+                                       "expected": "miss (out of reach)" if exp_miss else ("verdict withheld (exit 2)" if exp_withheld else "detect")}
+                if exp_withheld:
+                    if not (withheld or detected):
+                        res["failed"].append(f"seeded {name}: rc={rc} expected a withheld verdict (or a detection)")
+                elif detected == exp_miss or rc == 2:
                     res["failed"].append(f"seeded {name}: rc={rc} expected {'miss' if exp_miss else 'detection'}")
             elif kind == "micro":
                 alarms = {p: v for p, v in r.items() if v["rc"] == 1}
@@ -173,6 +201,7 @@ def battery(only=None, jobs=16, refactorings=True):
                 if noisy:
                     res["failed"].append(f"twin {name}: {noisy}")
     res["counts"] = {"seeded": len(res["seeded"]), "seeded_detected": sum(v["detected"] for v in res["seeded"].values()),
+                     "seeded_withheld": sum(v["withheld"] for v in res["seeded"].values()),
                      "twins": len(res["twins"]), "twins_silent": sum(v["silent"] for v in res["twins"].values()),
                      "micro": len(res["micro"]), "micro_silent": sum(v["silent"] for v in res["micro"].values()),
                      "micro_false_alarm": sum(bool(v["alarms"]) for v in res["micro"].values()),
@@ -188,11 +217,11 @@ if __name__ == "__main__":
     ap.add_argument("--jobs", type=int, default=16)
     ap.add_argument("--only")
     ap.add_argument("--json")
-    ap.add_argument("--skip-refactorings", action="store_true")
+    ap.add_argument("--skip-refactorings", action="store_true", help="seeded changes, hand controls and twins only (about 30 minutes less)")
     a = ap.parse_args()
     res = battery(a.only, a.jobs, not a.skip_refactorings)
     for k, v in sorted(res["seeded"].items()):
-        print(f"seeded {k:8s} {'DETECTED' if v['detected'] else 'missed  '} rc={v['rc']} {v['rules']} [{v['expected']}]")
+        print(f"seeded {k:8s} {'DETECTED' if v['detected'] else ('withheld' if v['withheld'] else 'missed  ')} rc={v['rc']} {v['rules']} [{v['expected']}]")
     for k, v in sorted(res["twins"].items()):
         print(f"twin   {k:32s} {'silent' if v['silent'] else 'NOISY ' + json.dumps(v['noisy'])[:200]}")
     for k, v in sorted(res["micro"].items()):
